@@ -1,9 +1,40 @@
 import Drv.Common
 import IwModel.Model.Txt
+import IwModel.Model.ReVm
 namespace Drv.C17
 open IwModel Drv
 
 def cz (bs : Bytes) : Bytes := bs ++ [0]
+
+/-- `revm` instruction token: M | C<ch> | A | K<64 hex> | N<64 hex> | S<a>,<b> | J<t> | B | E | V<k> -/
+def instrOf (tk : String) : Option ReVm.Instr :=
+  let body := (tk.drop 1).toString
+  match tk.front with
+  | 'M' => some .mtch
+  | 'C' => some (.chr (natArg body))
+  | 'A' => some .any
+  | 'K' => (ofHex body).map (.cls false ·)
+  | 'N' => (ofHex body).map (.cls true ·)
+  | 'S' => match body.splitOn "," with
+    | [a, b] => some (.split (natArg a) (natArg b))
+    | _ => none
+  | 'J' => some (.jump (natArg body))
+  | 'B' => some .abegin
+  | 'E' => some .aend
+  | 'V' => some (.save (natArg body))
+  | _ => none
+
+def capStr (c : Option Nat) : String := match c with | some n => s!" {n}" | none => " -1"
+
+def revm (nm : Nat) (text : Bytes) (toks : List String) : String :=
+  match toks.mapM instrOf with
+  | none => "revm bad-program"
+  | some prog =>
+    match ReVm.run prog (text.takeWhile (· ≠ 0)) nm with
+    | .oob => "revm oob"
+    | .fuel => "revm fuel"
+    | .ok none => "revm 0" ++ String.join ((List.replicate nm (none : Option Nat)).map capStr)
+    | .ok (some caps) => "revm 1" ++ String.join ((caps ++ List.replicate (nm - caps.length) none).map capStr)
 
 def step (ws : List String) : String :=
   match ws with
@@ -48,6 +79,7 @@ def step (ws : List String) : String :=
   | ["bin2hex", h, mx] =>
     let b := hexArg h
     if natArg mx ≤ b.length * 2 then "bin2hex null" else s!"bin2hex {hexOut (Conv.bin2hex b)}"
+  | "revm" :: nm :: txt :: toks => revm (natArg nm) (hexArg txt) toks
   | _ => "bad-op"
 
 end Drv.C17
